@@ -18,7 +18,39 @@ func refPack(w int, g *[8]uint8) [4]byte {
 	return [4]byte{byte(x), byte(x >> 8), byte(x >> 16), byte(x >> 24)}
 }
 
+// results of the previous call, retained to detect results that share storage between calls
+var prevUnpacked []uint8
+var prevUnpackedCopy [8]uint8
+var prevPacked []byte
+var prevPackedCopy [4]byte
+
+func checkRetained(w int) *Outcome {
+	if prevUnpacked != nil {
+		for i := 0; i < 8; i++ {
+			if prevUnpacked[i] != prevUnpackedCopy[i] {
+				return viol(fmt.Sprintf("C17/result-aliased/w=%d", w), "the slice returned by an earlier Unpack call changed when Unpack was called again (was %v, now %v)", prevUnpackedCopy, prevUnpacked)
+			}
+		}
+	}
+	if prevPacked != nil {
+		for i := range prevPacked {
+			if prevPacked[i] != prevPackedCopy[i] {
+				return viol(fmt.Sprintf("C17/result-aliased/w=%d", w), "the bytes returned by an earlier Pack call changed when Pack was called again")
+			}
+		}
+	}
+	return nil
+}
+
 func checkGroup(w int, g *[8]uint8) *Outcome {
+	o := checkGroupInner(w, g)
+	if o == nil {
+		o = checkRetained(w)
+	}
+	return o
+}
+
+func checkGroupInner(w int, g *[8]uint8) *Outcome {
 	want := refPack(w, g)
 	got := parquet.VerifBitPack(w, g[:])
 	if len(got) != w {
@@ -38,6 +70,14 @@ func checkGroup(w int, g *[8]uint8) *Outcome {
 			return viol(fmt.Sprintf("C17/roundtrip/w=%d", w), "Unpack(Pack(%v)) = %v (width %d, packed % x)", *g, back, w, got)
 		}
 	}
+	// keep this call's results; the next call checks that they are still intact
+	if o := checkRetained(w); o != nil {
+		return o
+	}
+	prevUnpacked = back
+	copy(prevUnpackedCopy[:], back)
+	prevPacked = got
+	copy(prevPackedCopy[:], got)
 	return nil
 }
 
